@@ -10,11 +10,13 @@ ap.add_argument("prop"); ap.add_argument("rel"); ap.add_argument("func")
 ap.add_argument("--case", type=int, action="append", default=[])
 ap.add_argument("--max", type=int, default=60)
 ap.add_argument("--jobs", type=int, default=5)
+ap.add_argument("--after", default=None, help="only look for FUNC after the first line containing this text (e.g. the class header)")
 args = ap.parse_args()
 SRC = "/repo/src/biotite"
 lines = open(os.path.join(SRC, args.rel)).read().split("\n")
 # extent of the function
-start = next(i for i, l in enumerate(lines) if re.match(r"\s*(def|cdef|cpdef)\b.*\b" + re.escape(args.func) + r"\s*\(", l))
+first = next(i for i, l in enumerate(lines) if args.after in l) if args.after else 0
+start = next(i for i, l in enumerate(lines) if i >= first and re.match(r"\s*(def|cdef|cpdef)\b[^=]*\b" + re.escape(args.func) + r"\s*\(", l))
 ind = len(lines[start]) - len(lines[start].lstrip())
 end = start + 1
 while end < len(lines) and (not lines[end].strip() or len(lines[end]) - len(lines[end].lstrip()) > ind):
